@@ -12,7 +12,7 @@
    session, what is stated of the final state holds after every operation. *)
 From Coq Require Import ZArith List Bool.
 Import ListNotations.
-From Urwid Require Import PyBase PyList vterm_csi_gen VTerm VT100Ref VTermRefine VTermListFacts VTermProofs VTermParse VTermSim VTermSim2.
+From Urwid Require Import PyBase PyList vterm_csi_gen VTerm VT100Ref VTermRefine VTermListFacts VTermProofs VTermParse VTermSim VTermSimB VTermSimC VTermSimD VTermSimF VTermSimSgr VTermSim2.
 Open Scope Z_scope.
 
 (* --- clause 1: never raises; the grid is exactly height x width (so is the view handed to the renderer,
@@ -103,8 +103,12 @@ Print Assumptions scrolled_back_view.
        ESC[row;colR with the reference's cursor position), and as long as only the whole-screen region scrolled
        ([v_sbknown]) the scrollback holds exactly the lines that left the top of the reference's screen, in order,
        characters and renditions (the last scrollback_maxlen_gen = 10000 of them: deque(maxlen)).
-       The palette (38;5;n) and direct (38;2;r;g;b) colour forms are in both references but outside this theorem:
-       they are decided by the oracle only. --- *)
+       SGR covers the classic values and the palette (38;5;n / 48;5;n) and direct (38;2;r;g;b / 48;2;r;g;b) colour
+       forms in any mixture ([sgr_ok]).  What the screen must show for a reference colour depends on the colour depth
+       the AttrSpec was pushed to by earlier parameters (16 -> 256 -> 2^24; it sticks until both colours are default
+       again): [attr_shows] reads a cell's AttrSpec at its own depth - basic number (+8 when bold) at 16, palette
+       index at 256, the palette entry's rgb (color_values_256_gen, dumped from the code's table) or the direct rgb at
+       2^24 - and compares with the reference's colour. --- *)
 Theorem vterm_refines_vt100 :
   forall w h e cs, 1 <= w -> 1 <= h ->
   forallb cmd_ok cs = true -> Forall cmd_small cs -> unambiguous (vt_init w h) cs = true ->
@@ -175,6 +179,10 @@ Proof. vm_compute. reflexivity. Qed.
 Example refines_line_drawing :
   agree_on 6 2 ([CDesig 1 48; CCh 120; CSo; CCh 113; CCh 113; CSi; CCh 121; CDesig 0 48; CCh 106; CDesig 0 66; CSo; CDesig 1 66;
                  CCh 107; CEl 1; CSi]) = true.
+Proof. vm_compute. reflexivity. Qed.
+Example refines_colour_forms :
+  agree_on 7 2 ([CSgr [38; 5; 196]; CCh 97; CSgr [48; 2; 1; 2; 3]; CCh 98; CSgr [31]; CCh 99; CSgr [39; 49]; CSgr [1; 32]; CCh 100;
+                 CSgr [0; 1; 38; 5; 3; 4]; CCh 101; CSgr [38; 2; 255; 255; 255; 48; 5; 255; 7]; CCh 102; CSgr []; CCh 103]) = true.
 Proof. vm_compute. reflexivity. Qed.
 Example refines_mixed :
   agree_on 5 3 ([CSgr [1; 31]; CCh 97; CSgr [0; 44]; CCh 98; CCup 9999 9999; CCh 99; CCh 100; CEl 1; CRi; CRi; CRi;
